@@ -30,3 +30,4 @@ def rules(ctx):
     S.cache_reset_rules(ctx)
     S.free_verdict_rules(ctx)
     S.key_compare_rules(ctx)
+    S.restore_commit_rules(ctx)
